@@ -10,6 +10,7 @@ import Kap.Proofs.C04
 import Kap.Proofs.C04Cache
 import Kap.Proofs.C04Trap
 import Kap.Proofs.C04Ref
+import Kap.Proofs.C04Point
 import Kap.Gen.C04Sigs
 import Kap.Model.C04Legacy
 import Kap.Gen.C04
@@ -206,6 +207,34 @@ theorem predicate_is_reference {F : Type} (ctx : Ctx F) (htbl : ctx.tbl = Gen.ta
   obtain ⟨p1, p2, _⟩ := runPath_eq ctx σ .pred e _ st (reach_inv ctx e pre)
   obtain ⟨q1, q2⟩ := runPathN_agree ctx σ hT hF e .pred .bool st h hwf hr ht (Or.inr (Or.inl ⟨rfl, rfl⟩))
   exact ⟨p1.trans q1, p2 ▸ q2⟩
+
+/-- **fillScope_denotes.** `fillScope` (root package, `EvalPredicate`) fails exactly when some reference of the
+expression names both a field and a tag of the point, and otherwise binds every reference to what it denotes:
+`time` the point's time, else the field, else the tag (as a string), else the missing value. -/
+theorem fillScope_denotes {F : Type} (refs : List String) (p : Point F) :
+    (fillScope refs p = none ↔ ∃ n ∈ refs, denote p n = none) ∧
+    (∀ σ, fillScope refs p = some σ → ∀ n ∈ refs, Scope.get σ n = denote p n) :=
+  fillScope_spec refs p
+
+/-- **point_predicate_is_reference.** `kapacitor.EvalPredicate` against a point, in any reachable cache state:
+an ambiguous reference is an error; otherwise, when the predicate is well typed (boolean) under the bindings
+`fillScope` made (characterised by `fillScope_denotes`), the answer is the reference value of the predicate
+under these bindings, and the group's stateful functions step as the reference's. -/
+theorem point_predicate_is_reference {F : Type} (ctx : Ctx F) (htbl : ctx.tbl = Gen.table) (hsigs : ctx.sigs = Gen.sigs)
+    (horacle : ∀ fn args v t, ctx.call fn args = some (.ok v) → sigType ctx fn (args.map Value.ty) = some t → v.ty = t)
+    (e : Expr F) (hwf : noMissingLit e = true) (pre : List (Path × Scope F × FnState F))
+    (p : Point F) (st : FnState F) (h : Hist F) (hr : StateRel ctx st h) :
+    ((∃ n ∈ refsOf e, denote p n = none) → (evalPoint ctx e p (reach ctx e pre) st).1 = .err) ∧
+    (∀ σ, fillScope (refsOf e) p = some σ → typeRef ctx σ e = some .bool →
+      (evalPoint ctx e p (reach ctx e pre) st).1 = (valRef ctx σ e h).1 ∧
+      StateRel ctx (evalPoint ctx e p (reach ctx e pre) st).2.2 (valRef ctx σ e h).2) := by
+  constructor
+  · intro hamb
+    have := ((fillScope_spec (refsOf e) p).1).mpr hamb
+    simp [evalPoint, this]
+  · intro σ hσ ht
+    simp only [evalPoint, hσ]
+    exact predicate_is_reference ctx htbl hsigs horacle e hwf pre σ st h hr ht
 
 /-- non-vacuity: `count() * "a" > 15` is well typed for an integer and for a duration-free scope, the fresh state
 represents the empty history, and the reference counts across the two points (10·1 > 15 is false, 10·2 > 15 true). -/
